@@ -342,6 +342,8 @@ def validate_stage(sc, rng, key, src=0, a=1, b=2):
                     continue      # the whole array is reported through its slices
             else:
                 gs = info.group_of_field(f)
+            if gs == ["handle"]:
+                continue          # addresses: differ between any two mjData
             if not gs:
                 problems.append({"kind": "unclassified-field", "stage": key, "field": f})
             elif not any(g in W for g in gs):
@@ -457,9 +459,7 @@ def differential(sc, rng, entry, receiver, sig, nsteps=1, src=0, dst=3):
                 ty = "x" if all(len(x) == 16 for x in v) else ""
                 h.ok("set %d %s %s" % (dst, f, " ".join(ty + x for x in v)))
         desc["copied_inputs"] = extra_in
-    claimed = [g for g in set(an["killN"] or []) | state_groups if g not in NEVER_COMPARE]
-    if sc.sleeping:
-        claimed = [g for g in info.groups if g not in NEVER_COMPARE and g != "iscratch"]
+    claimed = [g for g in set(an["killN"] or []) | I if g not in NEVER_COMPARE]
     call = entry
     for i in range(nsteps):
         r1 = h.cmd("call %d %s" % (src, call))
@@ -591,8 +591,10 @@ def probe_efc_state(h, sig):
     text = simple_model(body, disable=E("mjDSBL_WARMSTART"))
     if not h.model(text).startswith("ok"):
         return None, {"skipped": "model does not compile"}
-    cmds = ["data 0", "call 0 step", "call 0 step", "call 0 step", "data 1", "copystate 1 0 %d" % sig, "call 0 forward",
-            "call 1 forward", "cmp 0 1 efc_state efc_force qacc"]
+    # receiver: used in a state with a different constraint layout (spheres pressed into each other and the floor)
+    cmds = ["data 0", "call 0 step", "call 0 step", "call 0 step", "data 1",
+            "set 1 qpos 0 0 0.05 1 0 0 0 0.12 0 0.05 1 0 0 0", "call 1 step", "call 1 step",
+            "copystate 1 0 %d" % sig, "call 0 forward", "call 1 forward", "cmp 0 1 efc_state efc_force qacc"]
     for c in cmds[:-1]:
         h.ok(c)
     d = h.cmd(cmds[-1])
